@@ -16,6 +16,7 @@ import (
 	"k8s.io/apimachinery/pkg/util/validation/field"
 	apiserverapiscel "k8s.io/apiserver/pkg/apis/cel"
 	apiservercel "k8s.io/apiserver/pkg/cel"
+	"k8s.io/apiserver/pkg/cel/environment"
 	"k8s.io/kube-openapi/pkg/validation/spec"
 	"k8s.io/kube-openapi/pkg/validation/strfmt"
 	"k8s.io/kube-openapi/pkg/validation/validate"
@@ -681,7 +682,9 @@ func validateSchemaStuffWithXPrefixedName(
 			),
 		)
 	default:
-		compResults, err := cel.Compile(typeInfo.Schema, typeInfo.DeclType, apiserverapiscel.PerCallLimit, nil, nil)
+		compResults, err := cel.Compile(
+			typeInfo.Schema, typeInfo.DeclType, apiserverapiscel.PerCallLimit,
+			environment.MustBaseEnvSet(environment.DefaultCompatibilityVersion(), true), cel.NewExpressionsEnvLoader())
 		if err != nil {
 			allErrs.CELErrors = append(allErrs.CELErrors, field.InternalError(fldPath.Child("x-kubernetes-validations"), err))
 			return allErrs
